@@ -23,7 +23,7 @@ use anyhow::{Context, anyhow};
 use mithril_aggregator::{
     AggregatorRuntime, DumbUploader, MetricsService, ServeCommandConfiguration, ServeCommandDependenciesContainer,
     SingleSignatureAuthenticator,
-    database::repository::{CertificateRepository, OpenMessageRepository},
+    database::repository::{CertificateRepository, OpenMessageRepository, SignedEntityStorer},
     dependency_injection::{DependenciesBuilder, EpochServiceWrapper},
     entities::OpenMessage,
     services::{
@@ -210,6 +210,7 @@ impl World {
             authenticator: b.get_single_signature_authenticator().await.map_err(|e| anyhow!("{e:?}"))?,
             metrics_service: b.get_metrics_service().await.map_err(|e| anyhow!("{e:?}"))?,
             certifier_service: b.get_certifier_service().await.map_err(|e| anyhow!("{e:?}"))?,
+            signed_entity_storer: b.get_signed_entity_storer().await.map_err(|e| anyhow!("{e:?}"))?,
             deps,
             runtime,
             observer,
@@ -277,6 +278,7 @@ pub struct Node {
     pub open_message_repository: Arc<OpenMessageRepository>,
     pub certificate_repository: Arc<CertificateRepository>,
     pub certifier_service: Arc<dyn CertifierService>,
+    pub signed_entity_storer: Arc<dyn SignedEntityStorer>,
     pub epoch_service: EpochServiceWrapper,
     pub authenticator: Arc<SingleSignatureAuthenticator>,
     pub metrics_service: Arc<MetricsService>,
